@@ -161,6 +161,42 @@ def r7_context_truthiness(ck, cx):
     ck.floor('R7', n, 3, 'default-context selections in the server modules')
 
 
+
+def r11_slaves_lists_every_hosted_unit(ck, cx, rule='R11'):
+    """Every front-end takes the units it serves -- the framer's unit filter and the broadcast loop -- from context.slaves().  A unit
+    that __getitem__ resolves but slaves() does not list is hosted and unreachable.  slaves() must enumerate the registry itself:
+    every return value is list / tuple / sorted of self._slaves (or its keys()), or an unfiltered comprehension over it."""
+    ck.rule(rule, 'ModbusServerContext.slaves() lists every key of the registry (no filter, no other source of ids)')
+    c = cx.idx.cls('pymodbus.datastore.context.ModbusServerContext')
+    f = cx.method(c, 'slaves')
+    ck.saw('functions', f.qn)
+    n = 0
+
+    def registry(x):
+        if isinstance(x, ast.Call) and isinstance(x.func, ast.Attribute) and x.func.attr == 'keys' and not x.args:
+            x = x.func.value
+        return isinstance(x, ast.Attribute) and U(x) == 'self._slaves'
+    for p in cx.enum(f, c, max_depth=1):
+        if p.exit and p.exit[0] == 'exc':
+            continue
+        annotate(p, heap=False)
+        r = ret_expr(p)
+        n += 1
+        ok = False
+        v = r
+        while isinstance(v, ast.Call) and isinstance(v.func, ast.Name) and v.func.id in ('list', 'tuple', 'sorted') and len(v.args) == 1 and not v.keywords:
+            v = v.args[0]
+        if registry(v):
+            ok = True
+        elif isinstance(v, (ast.ListComp, ast.GeneratorExp)) and len(v.generators) == 1 and not v.generators[0].ifs and registry(v.generators[0].iter) \
+                and U(v.elt) == U(v.generators[0].target):
+            ok = True
+        ck.ob(rule, f.qn, 'slaves() returns the keys of the registry, all of them', ok, detail='slaves-not-the-registry-keys', loc=cx.floc(f),
+              message='ModbusServerContext.slaves() returns `%s`: a unit that is registered (and that __getitem__ resolves) but is not in this list is '
+                      'filtered out by every front-end before execution and skipped by the broadcast loop' % (U(r)[:80] if r is not None else None))
+    ck.floor(rule, n, 1, 'return paths of slaves()')
+
+
 def run(ck, tier):
     cx = Ctx()
     ck.guard(r1_unit_filter, ck, cx)
@@ -184,4 +220,5 @@ def run(ck, tier):
     ck.guard(_own.rule_instance_owned, ck, cx, 'R9', _own.STORES, 'a write addressed to one unit changes the tables of another unit', 4)
     from .c17 import r8_handler_bound_to_its_server
     ck.guard(r8_handler_bound_to_its_server, ck, cx, 'R10')
+    ck.guard(r11_slaves_lists_every_hosted_unit, ck, cx)
     return cx.idx
